@@ -187,7 +187,7 @@ fn main() {
     );
     run.assume("the per-expansion verdict is the implementation's own non-brace matcher (whose correctness is C02/C05); only the expansion set is modelled: mc/core/src/model/brace.rs");
 
-    let l = run.pick(8, 10);
+    let l = run.pick(9, 11);
     let names = ab_names();
     run.bound(format!("(a) all {} strings of length <= {} over {:?}", seqs::count(5, l), l, CH));
     seqs::par_seqs(&run, "C04(a)", CH.len(), l, 3, |_| false, |s, t| {
